@@ -9,19 +9,12 @@
                         live window Data[NextReadIndex:NextWriteIndex]
      queue.rchunks    = the chain readChunk -> ... up to but excluding writeChunk
      queue.wchunk     = writeChunk (its Next is always nil)
-     wcount / rcount  = the two atomic.Uint64 counters (arithmetic modulo 2^64 is explicit)
+     qsize            = the atomic.Int64 length counter (updated under the queue lock; the
+                        model keeps it in Z: fewer than 2^63 items, see the trusted base)
 *)
 From Coq Require Import List NArith ZArith Bool.
 Import ListNotations.
 Open Scope N_scope.
-
-Definition two64 : N := 18446744073709551616.
-Definition max_u64 : N := 18446744073709551615.
-
-(* uint64 -> int conversion on a 64-bit platform (two's complement) *)
-Definition u64_to_int (n : N) : Z :=
-  let m := n mod two64 in
-  if m <? 9223372036854775808 then Z.of_N m else (Z.of_N m - Z.of_N two64)%Z.
 
 Section Fifo.
   Context {A : Type}.
@@ -47,45 +40,39 @@ Section Fifo.
   Record queue := mkQueue {
     rchunks : list chunk;
     wchunk  : chunk;
-    wcount  : N;
-    rcount  : N;
+    qsize   : Z;
     initcap : N;      (* package var initialBufferCapacity at NewQueue / Purge time *)
     maxcap  : N;      (* q.maxCapacity *)
     qclosed : bool
   }.
 
   Definition new_queue (init mx : N) : queue :=
-    mkQueue [] (new_chunk init) 0 0 init mx false.
-
-  Definition inc64 (n : N) : N := (n + 1) mod two64.
+    mkQueue [] (new_chunk init) 0%Z init mx false.
 
   (* Queue.Len *)
-  Definition qlen (q : queue) : Z :=
-    if wcount q <? rcount q
-    then u64_to_int (max_u64 - rcount q + wcount q)
-    else u64_to_int (wcount q - rcount q).
+  Definition qlen (q : queue) : Z := qsize q.
 
   (* Queue.Enqueue (the type assertion always succeeds in the model: items are of type A) *)
   Definition enqueue (q : queue) (x : A) : bool * queue :=
     if qclosed q then (false, q) else
     match chunk_push (wchunk q) x with
     | Some w' =>
-        (true, mkQueue (rchunks q) w' (inc64 (wcount q)) (rcount q) (initcap q) (maxcap q) (qclosed q))
+        (true, mkQueue (rchunks q) w' (qsize q + 1)%Z (initcap q) (maxcap q) (qclosed q))
     | None =>
         let c := ccap (wchunk q) in
         let nc := N.min (c + c / 2) (maxcap q) in
         match chunk_push (new_chunk nc) x with
         | Some w' =>
-            (true, mkQueue (rchunks q ++ [wchunk q]) w' (inc64 (wcount q)) (rcount q)
+            (true, mkQueue (rchunks q ++ [wchunk q]) w' (qsize q + 1)%Z
                            (initcap q) (maxcap q) (qclosed q))
         | None =>
-            (false, mkQueue (rchunks q ++ [wchunk q]) (new_chunk nc) (wcount q) (rcount q)
+            (false, mkQueue (rchunks q ++ [wchunk q]) (new_chunk nc) (qsize q)
                             (initcap q) (maxcap q) (qclosed q))
         end
     end.
 
   Definition with_read (q : queue) (rs : list chunk) (w : chunk) (bump : bool) : queue :=
-    mkQueue rs w (wcount q) (if bump then inc64 (rcount q) else rcount q)
+    mkQueue rs w (if bump then (qsize q - 1)%Z else qsize q)
             (initcap q) (maxcap q) (qclosed q).
 
   (* Queue.Dequeue *)
@@ -126,10 +113,13 @@ Section Fifo.
 
   (* Queue.Purge ([init] = current value of the package variable) *)
   Definition purge (q : queue) (init : N) : queue :=
-    mkQueue [] (new_chunk init) 0 0 init (maxcap q) (qclosed q).
+    mkQueue [] (new_chunk init) 0%Z init (maxcap q) (qclosed q).
+
+  (* Queue.PurgeValues: contents and reset under one lock *)
+  Definition purge_values (q : queue) (init : N) : list A * queue := (qabs q, purge q init).
 
   Definition close (q : queue) : queue :=
-    mkQueue (rchunks q) (wchunk q) (wcount q) (rcount q) (initcap q) (maxcap q) true.
+    mkQueue (rchunks q) (wchunk q) (qsize q) (initcap q) (maxcap q) true.
 
   (* capacities of the chunks, for the differential test's structural comparison *)
   Definition caps (q : queue) : list N := map ccap (rchunks q) ++ [ccap (wchunk q)].
